@@ -130,6 +130,7 @@ func c13runCheck(ctx *vc.Ctx) {
 		fmt.Printf("replay outcome=%s\n", out)
 		return
 	}
+	c13concurrent(ctx)
 	pairs := [][2]string{{"a", "a b"}, {"b ", "x:y"}, {"alive: z", "leave"}, {"", "not-alive: q"}}
 	short, long := 4, 5
 	if ctx.Thorough() {
